@@ -332,63 +332,158 @@ Proof.
   replace (Z.of_N (r + 1) - 1)%Z with (Z.of_N r) by lia. reflexivity.
 Qed.
 
-Section Proofs.
-Variable is_alnum : N -> bool.
-Hypothesis is_alnum_ascii : forall c, c < 128 -> is_alnum c = ascii_alnum c.
+(* ------------------------------------------------------------------ the A1 scanner of HEAD (sf_ functions) *)
+Definition no_panic {A} (o : outcome A) : Prop :=
+  match o with Ok _ => True | Err _ => True | Panic => False | OutOfFuel => False end.
 
+Lemma sf_scan_letter_np : forall base c s, no_panic (sf_scan_letter base c s).
+Proof.
+  intros base c s. unfold sf_scan_letter. destruct (s_readrow s); [destruct (s_row s =? 0)|]; exact I.
+Qed.
+Lemma sf_scan_char_np : forall c s, no_panic (sf_scan_char c s).
+Proof.
+  intros c s. unfold sf_scan_char. destruct (is_digit c).
+  - destruct (s_readrow s); exact I.
+  - destruct (is_upper c); [apply sf_scan_letter_np|].
+    destruct (is_lower c); [apply sf_scan_letter_np|exact I].
+Qed.
+Lemma sf_scan_loop_np : forall rs s, no_panic (sf_scan_loop rs s).
+Proof.
+  induction rs as [|c t IH]; intros s; [exact I|]. cbn [sf_scan_loop].
+  pose proof (sf_scan_char_np c s) as H. destruct (sf_scan_char c s) as [s'| | |]; cbn [obind];
+    try exact H. apply IH.
+Qed.
+Theorem sf_get_row_and_optional_column_np : forall range, no_panic (sf_get_row_and_optional_column range).
+Proof.
+  intros range. unfold sf_get_row_and_optional_column.
+  pose proof (sf_scan_loop_np (rev range) scan_init) as H.
+  destruct (sf_scan_loop (rev range) scan_init) as [s| | |]; cbn [obind]; try exact H.
+  destruct (s_row s =? 0); [exact I|]. destruct (U32MAX <? s_row s - 1); [exact I|].
+  destruct (s_col s =? 0); [exact I|]. destruct (U32MAX <? s_col s - 1); exact I.
+Qed.
+Theorem sf_get_row_column_np : forall range, no_panic (sf_get_row_column range).
+Proof.
+  intros range. unfold sf_get_row_column. pose proof (sf_get_row_and_optional_column_np range) as H.
+  destruct (sf_get_row_and_optional_column range) as [[r oc]| | |]; cbn [obind]; try exact H.
+  cbn [snd]. destruct oc; exact I.
+Qed.
+Lemma sf_collect_parts_np : forall ps, no_panic (sf_collect_parts ps).
+Proof.
+  induction ps as [|p t IH]; [exact I|]. cbn [sf_collect_parts].
+  pose proof (sf_get_row_column_np p) as H. destruct (sf_get_row_column p) as [x| | |]; cbn [obind];
+    try exact H.
+  destruct (sf_collect_parts t) as [xs| | |]; cbn [obind]; first [exact IH | exact I].
+Qed.
+(* get_dimension never panics, whatever the attribute holds (reversed, huge, empty, garbage) *)
+Theorem sf_get_dimension_np : forall d, no_panic (sf_get_dimension d).
+Proof.
+  intros d. unfold sf_get_dimension. pose proof (sf_collect_parts_np (split_on ch_colon d [])) as H.
+  destruct (sf_collect_parts (split_on ch_colon d [])) as [parts| | |]; cbn [obind]; try exact H.
+  destruct parts as [|p0 [|p1 [|p2 r]]]; exact I.
+Qed.
+
+(* results are u32 *)
+Theorem sf_get_row_column_u32 : forall range r c,
+  sf_get_row_column range = Ok (r, c) -> r <= U32MAX /\ c <= U32MAX.
+Proof.
+  intros range r c H. unfold sf_get_row_column, sf_get_row_and_optional_column in H.
+  destruct (sf_scan_loop (rev range) scan_init) as [s| | |]; cbn [obind] in H; try discriminate H.
+  destruct (s_row s =? 0); [discriminate H|].
+  destruct (U32MAX <? s_row s - 1) eqn:E1; [discriminate H|].
+  destruct (s_col s =? 0); [discriminate H|].
+  destruct (U32MAX <? s_col s - 1) eqn:E2; [discriminate H|].
+  cbn [obind snd fst] in H. inversion H; subst. apply N.ltb_ge in E1, E2. split; assumption.
+Qed.
+
+(* wherever the scanner of the previous tree (Col26) succeeded, the new one returns the same *)
+Lemma sat_mul_small : forall a b, a * b <= U32MAX -> sat_mul64 a b = a * b.
+Proof. intros a b H. unfold sat_mul64, U64MAX, U32MAX in *. lia. Qed.
+Lemma sat_add_small : forall a b, a + b <= U32MAX -> sat_add64 a b = a + b.
+Proof. intros a b H. unfold sat_add64, U64MAX, U32MAX in *. lia. Qed.
+
+Lemma scan_letter_sim : forall base c s s',
+  scan_letter base c s = Ok s' -> sf_scan_letter base c s = Ok s'.
+Proof.
+  intros base c s s' H. unfold scan_letter, sf_scan_letter in *.
+  destruct (if s_readrow s
+            then if s_row s =? 0 then Err E_NO_ROW
+                 else Ok {| s_row := s_row s; s_col := s_col s; s_pow := 1; s_readrow := false |}
+            else Ok s) as [s1| | |]; cbn [obind] in *; try discriminate H.
+  unfold mul32, add32 in H.
+  destruct ((c - base + 1) * s_pow s1 <=? U32MAX) eqn:E1; cbn [obind] in H; [|discriminate H].
+  destruct (s_col s1 + (c - base + 1) * s_pow s1 <=? U32MAX) eqn:E2; cbn [obind] in H; [|discriminate H].
+  destruct (s_pow s1 * 26 <=? U32MAX) eqn:E3; cbn [obind] in H; [|discriminate H].
+  apply N.leb_le in E1, E2, E3. rewrite (sat_mul_small _ _ E1), (sat_add_small _ _ E2), (sat_mul_small _ _ E3).
+  exact H.
+Qed.
+
+Lemma scan_char_sim : forall c s s', scan_char c s = Ok s' -> sf_scan_char c s = Ok s'.
+Proof.
+  intros c s s' H. unfold scan_char, sf_scan_char in *. destruct (is_digit c).
+  - destruct (s_readrow s); [|discriminate H]. unfold mul32, add32 in H.
+    destruct ((c - ch_0) * s_pow s <=? U32MAX) eqn:E1; cbn [obind] in H; [|discriminate H].
+    destruct (s_row s + (c - ch_0) * s_pow s <=? U32MAX) eqn:E2; cbn [obind] in H; [|discriminate H].
+    destruct (s_pow s * 10 <=? U32MAX) eqn:E3; cbn [obind] in H; [|discriminate H].
+    apply N.leb_le in E1, E2, E3. rewrite (sat_mul_small _ _ E1), (sat_add_small _ _ E2), (sat_mul_small _ _ E3).
+    exact H.
+  - destruct (is_upper c); [apply scan_letter_sim; exact H|].
+    destruct (is_lower c); [apply scan_letter_sim; exact H|discriminate H].
+Qed.
+
+Lemma scan_loop_sim : forall rs s s', scan_loop rs s = Ok s' -> sf_scan_loop rs s = Ok s'.
+Proof.
+  induction rs as [|c t IH]; intros s s' H; [exact H|]. cbn [scan_loop sf_scan_loop] in *.
+  destruct (scan_char c s) as [s1| | |] eqn:E; cbn [obind] in H; try discriminate H.
+  rewrite (scan_char_sim c s s1 E). cbn [obind]. apply IH. exact H.
+Qed.
+
+Lemma get_row_and_optional_column_sim : forall range r c,
+  get_row_and_optional_column range = Ok (r, Some c) -> r <= U32MAX -> c <= U32MAX ->
+  sf_get_row_and_optional_column range = Ok (r, Some c).
+Proof.
+  intros range r c H Hr Hc. unfold get_row_and_optional_column, sf_get_row_and_optional_column in *.
+  destruct (scan_loop (rev range) scan_init) as [s| | |] eqn:E; cbn [obind] in H; try discriminate H.
+  rewrite (scan_loop_sim _ _ _ E). cbn [obind].
+  destruct (s_row s =? 0); [discriminate H|].
+  destruct (s_col s =? 0); [discriminate H|]. inversion H; subst.
+  destruct (U32MAX <? s_row s - 1) eqn:E1; [apply N.ltb_lt in E1; lia|].
+  destruct (U32MAX <? s_col s - 1) eqn:E2; [apply N.ltb_lt in E2; lia|]. reflexivity.
+Qed.
+
+Theorem sf_get_row_column_a1_name : forall r c,
+  r + 1 < ROW_TEXT_LIMIT -> c < COL_TEXT_LIMIT -> sf_get_row_column (a1_name r c) = Ok (r, c).
+Proof.
+  intros r c Hr Hc. unfold sf_get_row_column.
+  rewrite (get_row_and_optional_column_sim (a1_name r c) r c).
+  - reflexivity.
+  - apply get_row_and_optional_column_a1_name; assumption.
+  - unfold ROW_TEXT_LIMIT, U32MAX in *. lia.
+  - unfold COL_TEXT_LIMIT, U32MAX in *. lia.
+Qed.
+
+Theorem sf_get_dimension_pair : forall r0 c0 r1 c1,
+  r0 + 1 < ROW_TEXT_LIMIT -> c0 < COL_TEXT_LIMIT -> r1 + 1 < ROW_TEXT_LIMIT -> c1 < COL_TEXT_LIMIT ->
+  sf_get_dimension (a1_name r0 c0 ++ [ch_colon] ++ a1_name r1 c1) = Ok ((r0, c0), (r1, c1)).
+Proof.
+  intros r0 c0 r1 c1 H0 H1 H2 H3. unfold sf_get_dimension. cbn [app].
+  rewrite split_on_sep by apply a1_name_no_colon.
+  rewrite split_on_no_sep by apply a1_name_no_colon. cbn [rev app sf_collect_parts].
+  rewrite !sf_get_row_column_a1_name by assumption. reflexivity.
+Qed.
+
+(* an inverted ref is now accepted and kept as it stands (it used to panic) *)
+Example sf_get_dimension_examples :
+  sf_get_dimension [66;50;58;65;49] = Ok ((1, 1), (0, 0)) /\                (* B2:A1 *)
+  sf_get_row_column [70;65;66;68;97;68;122;57] = Ok (8, 1866361093) /\      (* FABDaDz9 *)
+  sf_get_row_column [65;52;50;57;52;57;54;55;50;57;55] = Err E_OUT_OF_RANGE /\  (* A4294967297 *)
+  sf_get_row_column [65;52;50;57;52;57;54;55;50;57;54] = Ok (4294967295, 0).  (* A4294967296 *)
+Proof. vm_compute. repeat split. Qed.
+
+Section Run.
+(* no assumption on the oracle here: totality holds for ANY is_alnum *)
+Variable is_alnum : N -> bool.
 Local Notation wordch := (is_formula_word_char is_alnum).
 Local Notation rcn := (replace_cell_names is_alnum).
-
-Lemma wordch_ascii : forall c, c < 128 -> wordch c = ascii_wordch c.
-Proof.
-  intros c H. unfold is_formula_word_char, ascii_wordch. rewrite is_alnum_ascii by exact H.
-  reflexivity.
-Qed.
-
-Lemma word_char_eq : forall c, word_char is_alnum c = wordch c.
-Proof.
-  intros c. unfold word_char, dname_char, uname_char, is_formula_word_char.
-  destruct (is_alnum c), (c =? ch_uscore), (c =? ch_dot), (c =? ch_dollar), (c =? ch_bslash),
-    (c =? ch_qmark); reflexivity.
-Qed.
-
-Lemma wordch_upper : forall c, is_upper c = true -> wordch c = true.
-Proof.
-  intros c H. rewrite wordch_ascii by (apply upper_lt128; exact H).
-  unfold ascii_wordch, ascii_alnum, is_alpha. rewrite H. reflexivity.
-Qed.
-Lemma wordch_digit : forall c, is_digit c = true -> wordch c = true.
-Proof.
-  intros c H. rewrite wordch_ascii by (apply digit_lt128; exact H).
-  unfold ascii_wordch, ascii_alnum. rewrite H, orb_true_r. reflexivity.
-Qed.
-Lemma wordch_dollar : wordch ch_dollar = true.
-Proof. rewrite wordch_ascii by reflexivity. reflexivity. Qed.
-Lemma wordch_uname : forall c, uname_char is_alnum c = true -> wordch c = true.
-Proof.
-  intros c H. rewrite <- word_char_eq. unfold word_char, dname_char. rewrite H. reflexivity.
-Qed.
-Lemma wordch_dname : forall c, dname_char is_alnum c = true -> wordch c = true.
-Proof.
-  intros c H. rewrite <- word_char_eq. unfold word_char. rewrite H. reflexivity.
-Qed.
-(* a word character is none of the characters the scanner treats specially *)
-Lemma wordch_not_special : forall c, wordch c = true ->
-  (c =? ch_dquote) = false /\ (c =? ch_apos) = false /\ (c =? ch_lbrack) = false.
-Proof.
-  intros c H. repeat split.
-  - destruct (c =? ch_dquote) eqn:E; [|reflexivity]. apply N.eqb_eq in E. subst c.
-    rewrite wordch_ascii in H by reflexivity. discriminate H.
-  - destruct (c =? ch_apos) eqn:E; [|reflexivity]. apply N.eqb_eq in E. subst c.
-    rewrite wordch_ascii in H by reflexivity. discriminate H.
-  - destruct (c =? ch_lbrack) eqn:E; [|reflexivity]. apply N.eqb_eq in E. subst c.
-    rewrite wordch_ascii in H by reflexivity. discriminate H.
-Qed.
-Lemma dname_not_dollar : forall c, dname_char is_alnum c = true -> c <> ch_dollar.
-Proof.
-  intros c H E. subst c. unfold dname_char, uname_char in H.
-  rewrite is_alnum_ascii in H by reflexivity. discriminate H.
-Qed.
 
 (* ------------------------------------------------------------------ fuel *)
 Lemma scan_quote_len : forall q l, (length (snd (scan_quote q l)) <= length l)%nat.
@@ -441,23 +536,255 @@ Proof.
 Qed.
 
 (* the loop with the fuel of the model: fuel-free unfolding equations *)
-Definition run (off : Z * Z) (l res : list N) : outcome (list N) :=
+Definition run_with (off : Z * Z) (l res : list N) : outcome (list N) :=
   rcn_loop is_alnum (S (length l)) off l res.
 
-Lemma rcn_run : forall s off, rcn s off = run off s [].
+Lemma rcn_run : forall s off, rcn s off = run_with off s [].
 Proof. reflexivity. Qed.
-Lemma run_nil : forall off res, run off [] res = Ok res.
+Lemma run_nil : forall off res, run_with off [] res = Ok res.
 Proof. reflexivity. Qed.
 Lemma run_cons : forall off c t res,
-  run off (c :: t) res = do er <- rcn_step is_alnum off c t; run off (snd er) (res ++ fst er).
+  run_with off (c :: t) res = do er <- rcn_step is_alnum off c t; run_with off (snd er) (res ++ fst er).
 Proof.
-  intros off c t res. unfold run. cbn [length].
+  intros off c t res. unfold run_with. cbn [length].
   change (rcn_loop is_alnum (S (S (length t))) off (c :: t) res)
     with (do er <- rcn_step is_alnum off c t;
           rcn_loop is_alnum (S (length t)) off (snd er) (res ++ fst er)).
   destruct (rcn_step is_alnum off c t) as [[e r]| | |] eqn:E; cbn [obind]; try reflexivity.
   cbn [fst snd]. apply rcn_step_len in E.
   apply rcn_loop_fuel with (n := length r); lia.
+Qed.
+
+(* ------------------------------------------------------------------ no panic, no error, enough fuel *)
+(* offsets far beyond any sheet: |d| <= 2^62 *)
+Definition off_small (off : Z * Z) : Prop :=
+  (- 4611686018427387904 <= fst off <= 4611686018427387904 /\
+   - 4611686018427387904 <= snd off <= 4611686018427387904)%Z.
+
+Lemma scan_bracket_ok : forall l d, 0 < d -> exists er, scan_bracket l d = Ok er.
+Proof.
+  induction l as [|x t IH]; intros d Hd; [eexists; reflexivity|]. cbn [scan_bracket].
+  destruct (x =? ch_lbrack).
+  - cbn [obind]. destruct (d + 1 =? 0) eqn:E; [eexists; reflexivity|].
+    destruct (IH (d + 1) ltac:(lia)) as (er & Her). rewrite Her. eexists; reflexivity.
+  - destruct (x =? ch_rbrack).
+    + destruct (d =? 0) eqn:E0; [apply N.eqb_eq in E0; lia|]. cbn [obind].
+      destruct (d - 1 =? 0) eqn:E; [eexists; reflexivity|].
+      apply N.eqb_neq in E. destruct (IH (d - 1) ltac:(lia)) as (er & Her). rewrite Her.
+      eexists; reflexivity.
+    + cbn [obind]. destruct (d =? 0) eqn:E; [eexists; reflexivity|].
+      destruct (IH d Hd) as (er & Her). rewrite Her. eexists; reflexivity.
+Qed.
+
+Lemma fold26_nonneg_alpha : forall a x, forallb is_alpha a = true -> (0 <= x)%Z ->
+  (0 <= fold_left zf26 a x)%Z.
+Proof.
+  induction a as [|c a IH]; intros x Ha Hx; [exact Hx|]. cbn [fold_left forallb] in *.
+  apply andb_prop in Ha as [Hc Ha]. apply IH; [exact Ha|].
+  unfold zf26. pose proof (to_upper_is_upper c Hc) as U. unfold is_upper, ch_A, ch_Z in U. lia.
+Qed.
+Lemma fold10_nonneg : forall a x, forallb is_digit a = true -> (0 <= x)%Z ->
+  (0 <= fold_left zf10 a x)%Z.
+Proof.
+  induction a as [|c a IH]; intros x Ha Hx; [exact Hx|]. cbn [fold_left forallb] in *.
+  apply andb_prop in Ha as [Hc Ha]. apply IH; [exact Ha|].
+  unfold zf10. unfold is_digit, ch_0, ch_9 in Hc. lia.
+Qed.
+
+Lemma ocn_parse_bounds : forall name ca col ra row,
+  ocn_parse name = Some (ca, col, ra, row) -> (-1 <= row < 1048576 /\ -1 <= col < 16384)%Z.
+Proof.
+  intros name ca col ra row H. unfold ocn_parse in H.
+  rewrite ocn_letters_span in H by lia. cbn [Nat.add] in H.
+  set (l0 := if starts_dollar name then tl name else name) in *.
+  pose proof (span_fst_all is_alpha l0) as Ha.
+  destruct (span is_alpha l0) as [a l1]. cbn [fst snd] in *.
+  destruct (length a <=? 3)%nat; [|discriminate H].
+  destruct (length a =? 0)%nat; [discriminate H|].
+  rewrite ocn_digits_span in H by lia. cbn [Nat.add] in H.
+  set (l2 := if starts_dollar l1 then tl l1 else l1) in *.
+  pose proof (span_fst_all is_digit l2) as Hd.
+  destruct (span is_digit l2) as [ds l3]. cbn [fst snd] in *.
+  destruct (length ds <=? 7)%nat; [|discriminate H].
+  destruct ((length ds =? 0)%nat || negb (is_nil l3) || (hd 0 l2 =? ch_0)); [discriminate H|].
+  pose proof (fold26_nonneg_alpha a 0%Z Ha ltac:(lia)) as P1.
+  pose proof (fold10_nonneg ds 0%Z Hd ltac:(lia)) as P2.
+  unfold ZROWS, ZCOLS in H.
+  destruct ((1048576 <=? fold_left zf10 ds 0 - 1)%Z || (16384 <=? fold_left zf26 a 0 - 1)%Z) eqn:E;
+    [discriminate H|].
+  inversion H; subst. lia.
+Qed.
+
+Lemma ocn_total : forall w off, off_small off -> exists o, offset_cell_name w off = Ok o.
+Proof.
+  intros w [dr dc] [Hr Hc]. cbn [fst snd] in *. unfold offset_cell_name.
+  destruct (ocn_parse w) as [[[[ca col] ra] row]|] eqn:P; [|eexists; reflexivity].
+  apply ocn_parse_bounds in P. unfold ocn_apply. cbn [fst snd].
+  assert (E1 : exists row', (if ra then Ok row else add_i64 row dr) = Ok row').
+  { destruct ra; [eexists; reflexivity|]. unfold add_i64, I64MIN, I64MAX.
+    destruct ((-9223372036854775808 <=? row + dr)%Z && (row + dr <=? 9223372036854775807)%Z) eqn:E;
+      [eexists; reflexivity|lia]. }
+  assert (E2 : exists col', (if ca then Ok col else add_i64 col dc) = Ok col').
+  { destruct ca; [eexists; reflexivity|]. unfold add_i64, I64MIN, I64MAX.
+    destruct ((-9223372036854775808 <=? col + dc)%Z && (col + dc <=? 9223372036854775807)%Z) eqn:E;
+      [eexists; reflexivity|lia]. }
+  destruct E1 as (row' & E1). destruct E2 as (col' & E2). rewrite E1, E2. cbn [obind].
+  destruct (in_sheet row' col') eqn:S; cbn [negb]; [|eexists; reflexivity].
+  unfold in_sheet, ZROWS, ZCOLS in S.
+  assert (E4 : as_u32 col' = Z.to_N col').
+  { unfold as_u32. rewrite Z.mod_small by lia. reflexivity. }
+  rewrite E4. rewrite column_number_to_name_is_letters by lia. eexists; reflexivity.
+Qed.
+
+Lemma rcn_step_total : forall off c t, off_small off ->
+  exists er, rcn_step is_alnum off c t = Ok er.
+Proof.
+  intros off c t Hoff. unfold rcn_step.
+  destruct ((c =? ch_dquote) || (c =? ch_apos)); [eexists; reflexivity|].
+  destruct (c =? ch_lbrack) eqn:B.
+  { cbn [scan_bracket]. rewrite B. cbn [obind]. change (0 + 1 =? 0) with false. cbn iota.
+    destruct (scan_bracket_ok t (0 + 1) ltac:(lia)) as (er & Her). rewrite Her.
+    eexists; reflexivity. }
+  destruct (wordch c); [|eexists; reflexivity].
+  set (wr := span wordch (c :: t)).
+  destruct (ocn_total (fst wr) off Hoff) as (o & Ho).
+  destruct (snd wr) as [|x r'].
+  - rewrite Ho. eexists; reflexivity.
+  - destruct ((x =? ch_lparen) || (x =? ch_bang)); [eexists; reflexivity|].
+    rewrite Ho. eexists; reflexivity.
+Qed.
+
+Lemma run_total : forall off, off_small off ->
+  forall n l res, (length l <= n)%nat -> exists r, run_with off l res = Ok r.
+Proof.
+  intros off Hoff. induction n as [|n IH]; intros l res Hl.
+  - destruct l; [eexists; apply run_nil|cbn in Hl; lia].
+  - destruct l as [|c t]; [eexists; apply run_nil|]. rewrite run_cons.
+    destruct (rcn_step_total off c t Hoff) as ([e r] & Hs). rewrite Hs. cbn [obind fst snd].
+    apply IH. apply rcn_step_len in Hs. cbn [length] in Hl. lia.
+Qed.
+
+(* replace_cell_names is total on every text: never a panic (bracket depth, i64), never an
+   error, the fuel of the model suffices *)
+Theorem rcn_total : forall s off, off_small off -> exists r, rcn s off = Ok r.
+Proof. intros s off Hoff. rewrite rcn_run. apply (run_total off Hoff (length s)). lia. Qed.
+
+Lemma off_ok_small : forall off, off_ok off = true -> off_small off.
+Proof.
+  intros [dr dc] H. unfold off_ok, MAX_ROWS, MAX_COLUMNS in H. unfold off_small. cbn [fst snd] in *. lia.
+Qed.
+
+(* ------------------------------------------------------------------ next_formula never panics *)
+(* positions are u32 in the Rust code (a typing constraint, not a well-formedness condition) *)
+Definition u32_pos (p : N * N) : Prop := fst p <= U32MAX /\ snd p <= U32MAX.
+Definition fs_u32 (fs : fmap) : Prop :=
+  forall si f d m, fm_get fs si = Some (f, (d, m)) -> u32_pos m.
+
+Lemma diff_small : forall p m, u32_pos p -> u32_pos m ->
+  off_small ((Z.of_N (fst p) - Z.of_N (fst m))%Z, (Z.of_N (snd p) - Z.of_N (snd m))%Z).
+Proof.
+  intros p m [P1 P2] [M1 M2]. unfold off_small, U32MAX in *. cbn [fst snd]. lia.
+Qed.
+
+Lemma cell_step_np : forall fs pos k, fs_u32 fs -> u32_pos pos ->
+  match cell_step is_alnum fs pos k with
+  | Ok r => fs_u32 (fst r) | Err _ => True | Panic => False | OutOfFuel => False
+  end.
+Proof.
+  intros fs pos k Hfs Hp. destruct k as [|f|si ref f|si own|]; cbn [cell_step fst]; try exact Hfs; try exact I.
+  - pose proof (sf_get_dimension_np ref) as D.
+    destruct (sf_get_dimension ref) as [d| | |]; cbn [obind]; try exact D.
+    cbn [fst]. intros si' f' d' m' G. unfold fm_insert in G. cbn [fm_get] in G.
+    destruct (si =? si').
+    + inversion G; subst. exact Hp.
+    + exact (Hfs _ _ _ _ G).
+  - destruct (fm_get fs si) as [[f [dims master]]|] eqn:G; [|exact Hfs].
+    destruct (contains dims pos); [|exact Hfs].
+    destruct (rcn_total f _ (diff_small pos master Hp (Hfs _ _ _ _ G))) as (r & Hr).
+    rewrite Hr. cbn [obind fst]. exact Hfs.
+Qed.
+
+Lemma run_cells_np : forall cells fs, fs_u32 fs -> Forall (fun c : fcell => u32_pos (fst c)) cells ->
+  no_panic (run_cells is_alnum fs cells).
+Proof.
+  induction cells as [|[pos k] cells IH]; intros fs Hfs Hc; [exact I|].
+  inversion Hc as [|x l Hp Hc']; subst. cbn [fst] in Hp. cbn [run_cells].
+  pose proof (cell_step_np fs pos k Hfs Hp) as S.
+  destruct (cell_step is_alnum fs pos k) as [r| | |]; cbn [obind]; try exact S.
+  pose proof (IH (fst r) S Hc') as R.
+  destruct (run_cells is_alnum (fst r) cells) as [rest| | |]; cbn [obind]; first [exact R | exact I].
+Qed.
+
+(* the shared-formula part of next_formula / worksheet_formula on ANY sequence of cells (any ref
+   attribute, any text, any order): an error at worst, never a panic, never out of fuel *)
+Theorem next_formula_np : forall cells, Forall (fun c : fcell => u32_pos (fst c)) cells ->
+  no_panic (run_cells is_alnum [] cells) /\ no_panic (sheet_formulas is_alnum cells).
+Proof.
+  intros cells Hc.
+  assert (H0 : fs_u32 []) by (intros si f d m G; discriminate G).
+  pose proof (run_cells_np cells [] H0 Hc) as R. split; [exact R|].
+  unfold sheet_formulas. destruct (run_cells is_alnum [] cells); cbn [obind]; first [exact R | exact I].
+Qed.
+
+End Run.
+
+Section Proofs.
+Variable is_alnum : N -> bool.
+Hypothesis is_alnum_ascii : forall c, c < 128 -> is_alnum c = ascii_alnum c.
+
+Local Notation wordch := (is_formula_word_char is_alnum).
+Local Notation rcn := (replace_cell_names is_alnum).
+Local Notation run := (run_with is_alnum).
+
+Lemma wordch_ascii : forall c, c < 128 -> wordch c = ascii_wordch c.
+Proof.
+  intros c H. unfold is_formula_word_char, ascii_wordch. rewrite is_alnum_ascii by exact H.
+  reflexivity.
+Qed.
+
+Lemma word_char_eq : forall c, word_char is_alnum c = wordch c.
+Proof.
+  intros c. unfold word_char, dname_char, uname_char, is_formula_word_char.
+  destruct (is_alnum c), (c =? ch_uscore), (c =? ch_dot), (c =? ch_dollar), (c =? ch_bslash),
+    (c =? ch_qmark); reflexivity.
+Qed.
+
+Lemma wordch_upper : forall c, is_upper c = true -> wordch c = true.
+Proof.
+  intros c H. rewrite wordch_ascii by (apply upper_lt128; exact H).
+  unfold ascii_wordch, ascii_alnum, is_alpha. rewrite H. reflexivity.
+Qed.
+Lemma wordch_digit : forall c, is_digit c = true -> wordch c = true.
+Proof.
+  intros c H. rewrite wordch_ascii by (apply digit_lt128; exact H).
+  unfold ascii_wordch, ascii_alnum. rewrite H, orb_true_r. reflexivity.
+Qed.
+Lemma wordch_dollar : wordch ch_dollar = true.
+Proof. rewrite wordch_ascii by reflexivity. reflexivity. Qed.
+Lemma wordch_uname : forall c, uname_char is_alnum c = true -> wordch c = true.
+Proof.
+  intros c H. rewrite <- word_char_eq. unfold word_char, dname_char. rewrite H. reflexivity.
+Qed.
+Lemma wordch_dname : forall c, dname_char is_alnum c = true -> wordch c = true.
+Proof.
+  intros c H. rewrite <- word_char_eq. unfold word_char. rewrite H. reflexivity.
+Qed.
+(* a word character is none of the characters the scanner treats specially *)
+Lemma wordch_not_special : forall c, wordch c = true ->
+  (c =? ch_dquote) = false /\ (c =? ch_apos) = false /\ (c =? ch_lbrack) = false.
+Proof.
+  intros c H. repeat split.
+  - destruct (c =? ch_dquote) eqn:E; [|reflexivity]. apply N.eqb_eq in E. subst c.
+    rewrite wordch_ascii in H by reflexivity. discriminate H.
+  - destruct (c =? ch_apos) eqn:E; [|reflexivity]. apply N.eqb_eq in E. subst c.
+    rewrite wordch_ascii in H by reflexivity. discriminate H.
+  - destruct (c =? ch_lbrack) eqn:E; [|reflexivity]. apply N.eqb_eq in E. subst c.
+    rewrite wordch_ascii in H by reflexivity. discriminate H.
+Qed.
+Lemma dname_not_dollar : forall c, dname_char is_alnum c = true -> c <> ch_dollar.
+Proof.
+  intros c H E. subst c. unfold dname_char, uname_char in H.
+  rewrite is_alnum_ascii in H by reflexivity. discriminate H.
 Qed.
 
 (* ------------------------------------------------------------------ one step, by kind of first char *)
@@ -1139,125 +1466,6 @@ Proof.
   apply known_at_of_known. exact Hk.
 Qed.
 
-(* ------------------------------------------------------------------ no panic, no error, enough fuel *)
-(* offsets far beyond any sheet: |d| <= 2^62 *)
-Definition off_small (off : Z * Z) : Prop :=
-  (- 4611686018427387904 <= fst off <= 4611686018427387904 /\
-   - 4611686018427387904 <= snd off <= 4611686018427387904)%Z.
-
-Lemma scan_bracket_ok : forall l d, 0 < d -> exists er, scan_bracket l d = Ok er.
-Proof.
-  induction l as [|x t IH]; intros d Hd; [eexists; reflexivity|]. cbn [scan_bracket].
-  destruct (x =? ch_lbrack).
-  - cbn [obind]. destruct (d + 1 =? 0) eqn:E; [eexists; reflexivity|].
-    destruct (IH (d + 1) ltac:(lia)) as (er & Her). rewrite Her. eexists; reflexivity.
-  - destruct (x =? ch_rbrack).
-    + destruct (d =? 0) eqn:E0; [apply N.eqb_eq in E0; lia|]. cbn [obind].
-      destruct (d - 1 =? 0) eqn:E; [eexists; reflexivity|].
-      apply N.eqb_neq in E. destruct (IH (d - 1) ltac:(lia)) as (er & Her). rewrite Her.
-      eexists; reflexivity.
-    + cbn [obind]. destruct (d =? 0) eqn:E; [eexists; reflexivity|].
-      destruct (IH d Hd) as (er & Her). rewrite Her. eexists; reflexivity.
-Qed.
-
-Lemma fold26_nonneg_alpha : forall a x, forallb is_alpha a = true -> (0 <= x)%Z ->
-  (0 <= fold_left zf26 a x)%Z.
-Proof.
-  induction a as [|c a IH]; intros x Ha Hx; [exact Hx|]. cbn [fold_left forallb] in *.
-  apply andb_prop in Ha as [Hc Ha]. apply IH; [exact Ha|].
-  unfold zf26. pose proof (to_upper_is_upper c Hc) as U. unfold is_upper, ch_A, ch_Z in U. lia.
-Qed.
-Lemma fold10_nonneg : forall a x, forallb is_digit a = true -> (0 <= x)%Z ->
-  (0 <= fold_left zf10 a x)%Z.
-Proof.
-  induction a as [|c a IH]; intros x Ha Hx; [exact Hx|]. cbn [fold_left forallb] in *.
-  apply andb_prop in Ha as [Hc Ha]. apply IH; [exact Ha|].
-  unfold zf10. unfold is_digit, ch_0, ch_9 in Hc. lia.
-Qed.
-
-Lemma ocn_parse_bounds : forall name ca col ra row,
-  ocn_parse name = Some (ca, col, ra, row) -> (-1 <= row < 1048576 /\ -1 <= col < 16384)%Z.
-Proof.
-  intros name ca col ra row H. unfold ocn_parse in H.
-  rewrite ocn_letters_span in H by lia. cbn [Nat.add] in H.
-  set (l0 := if starts_dollar name then tl name else name) in *.
-  pose proof (span_fst_all is_alpha l0) as Ha.
-  destruct (span is_alpha l0) as [a l1]. cbn [fst snd] in *.
-  destruct (length a <=? 3)%nat; [|discriminate H].
-  destruct (length a =? 0)%nat; [discriminate H|].
-  rewrite ocn_digits_span in H by lia. cbn [Nat.add] in H.
-  set (l2 := if starts_dollar l1 then tl l1 else l1) in *.
-  pose proof (span_fst_all is_digit l2) as Hd.
-  destruct (span is_digit l2) as [ds l3]. cbn [fst snd] in *.
-  destruct (length ds <=? 7)%nat; [|discriminate H].
-  destruct ((length ds =? 0)%nat || negb (is_nil l3) || (hd 0 l2 =? ch_0)); [discriminate H|].
-  pose proof (fold26_nonneg_alpha a 0%Z Ha ltac:(lia)) as P1.
-  pose proof (fold10_nonneg ds 0%Z Hd ltac:(lia)) as P2.
-  unfold ZROWS, ZCOLS in H.
-  destruct ((1048576 <=? fold_left zf10 ds 0 - 1)%Z || (16384 <=? fold_left zf26 a 0 - 1)%Z) eqn:E;
-    [discriminate H|].
-  inversion H; subst. lia.
-Qed.
-
-Lemma ocn_total : forall w off, off_small off -> exists o, offset_cell_name w off = Ok o.
-Proof.
-  intros w [dr dc] [Hr Hc]. cbn [fst snd] in *. unfold offset_cell_name.
-  destruct (ocn_parse w) as [[[[ca col] ra] row]|] eqn:P; [|eexists; reflexivity].
-  apply ocn_parse_bounds in P. unfold ocn_apply. cbn [fst snd].
-  assert (E1 : exists row', (if ra then Ok row else add_i64 row dr) = Ok row').
-  { destruct ra; [eexists; reflexivity|]. unfold add_i64, I64MIN, I64MAX.
-    destruct ((-9223372036854775808 <=? row + dr)%Z && (row + dr <=? 9223372036854775807)%Z) eqn:E;
-      [eexists; reflexivity|lia]. }
-  assert (E2 : exists col', (if ca then Ok col else add_i64 col dc) = Ok col').
-  { destruct ca; [eexists; reflexivity|]. unfold add_i64, I64MIN, I64MAX.
-    destruct ((-9223372036854775808 <=? col + dc)%Z && (col + dc <=? 9223372036854775807)%Z) eqn:E;
-      [eexists; reflexivity|lia]. }
-  destruct E1 as (row' & E1). destruct E2 as (col' & E2). rewrite E1, E2. cbn [obind].
-  destruct (in_sheet row' col') eqn:S; cbn [negb]; [|eexists; reflexivity].
-  unfold in_sheet, ZROWS, ZCOLS in S.
-  assert (E4 : as_u32 col' = Z.to_N col').
-  { unfold as_u32. rewrite Z.mod_small by lia. reflexivity. }
-  rewrite E4. rewrite column_number_to_name_is_letters by lia. eexists; reflexivity.
-Qed.
-
-Lemma rcn_step_total : forall off c t, off_small off ->
-  exists er, rcn_step is_alnum off c t = Ok er.
-Proof.
-  intros off c t Hoff. unfold rcn_step.
-  destruct ((c =? ch_dquote) || (c =? ch_apos)); [eexists; reflexivity|].
-  destruct (c =? ch_lbrack) eqn:B.
-  { cbn [scan_bracket]. rewrite B. cbn [obind]. change (0 + 1 =? 0) with false. cbn iota.
-    destruct (scan_bracket_ok t (0 + 1) ltac:(lia)) as (er & Her). rewrite Her.
-    eexists; reflexivity. }
-  destruct (wordch c); [|eexists; reflexivity].
-  set (wr := span wordch (c :: t)).
-  destruct (ocn_total (fst wr) off Hoff) as (o & Ho).
-  destruct (snd wr) as [|x r'].
-  - rewrite Ho. eexists; reflexivity.
-  - destruct ((x =? ch_lparen) || (x =? ch_bang)); [eexists; reflexivity|].
-    rewrite Ho. eexists; reflexivity.
-Qed.
-
-Lemma run_total : forall off, off_small off ->
-  forall n l res, (length l <= n)%nat -> exists r, run off l res = Ok r.
-Proof.
-  intros off Hoff. induction n as [|n IH]; intros l res Hl.
-  - destruct l; [eexists; apply run_nil|cbn in Hl; lia].
-  - destruct l as [|c t]; [eexists; apply run_nil|]. rewrite run_cons.
-    destruct (rcn_step_total off c t Hoff) as ([e r] & Hs). rewrite Hs. cbn [obind fst snd].
-    apply IH. apply rcn_step_len in Hs. cbn [length] in Hl. lia.
-Qed.
-
-(* replace_cell_names is total on every text: never a panic (bracket depth, i64), never an
-   error, the fuel of the model suffices *)
-Theorem rcn_total : forall s off, off_small off -> exists r, rcn s off = Ok r.
-Proof. intros s off Hoff. rewrite rcn_run. apply (run_total off Hoff (length s)). lia. Qed.
-
-Lemma off_ok_small : forall off, off_ok off = true -> off_small off.
-Proof.
-  intros [dr dc] H. unfold off_ok, MAX_ROWS, MAX_COLUMNS in H. unfold off_small. cbn [fst snd] in *. lia.
-Qed.
-
 (* ------------------------------------------------------------------ groups *)
 Definition enc_group (g : group) : N * group_entry :=
   (g_si g, (render_all (g_tokens g), ((g_start g, g_end g), g_master g))).
@@ -1272,11 +1480,11 @@ Proof.
 Qed.
 
 Lemma ref_text_dimension : forall g, group_okb g = true ->
-  get_dimension (ref_text (g_start g) (g_end g)) = Ok (g_start g, g_end g).
+  sf_get_dimension (ref_text (g_start g) (g_end g)) = Ok (g_start g, g_end g).
 Proof.
   intros g H. unfold group_okb, MAX_ROWS, MAX_COLUMNS in H.
   destruct (g_start g) as [r0 c0], (g_end g) as [r1 c1]. cbn [fst snd] in *. unfold ref_text. cbn [fst snd].
-  apply get_dimension_pair; unfold ROW_TEXT_LIMIT, COL_TEXT_LIMIT; lia.
+  apply sf_get_dimension_pair; unfold ROW_TEXT_LIMIT, COL_TEXT_LIMIT; lia.
 Qed.
 
 Definition cell_okb (seen : list group) (c : scell) : bool :=
@@ -1331,6 +1539,48 @@ Proof.
 Qed.
 
 End Proofs.
+
+
+
+Lemma no_panic_ne : forall A (o : outcome A), no_panic o -> o <> Panic /\ o <> OutOfFuel.
+Proof. intros A o H. destruct o; try contradiction; split; discriminate. Qed.
+
+(* the C06-style statements: no hypothesis on the input *)
+Theorem no_panic_get_row_column : forall range,
+  sf_get_row_column range <> Panic /\ sf_get_row_column range <> OutOfFuel.
+Proof. intros range. apply no_panic_ne, sf_get_row_column_np. Qed.
+Theorem no_panic_get_dimension : forall d,
+  sf_get_dimension d <> Panic /\ sf_get_dimension d <> OutOfFuel.
+Proof. intros d. apply no_panic_ne, sf_get_dimension_np. Qed.
+Theorem no_panic_next_formula : forall is_alnum cells,
+  Forall (fun c : fcell => u32_pos (fst c)) cells ->
+  (run_cells is_alnum [] cells <> Panic /\ run_cells is_alnum [] cells <> OutOfFuel) /\
+  (sheet_formulas is_alnum cells <> Panic /\ sheet_formulas is_alnum cells <> OutOfFuel).
+Proof.
+  intros is_alnum cells H. destruct (next_formula_np is_alnum cells H) as [A B].
+  split; apply no_panic_ne; assumption.
+Qed.
+(* a group declared with an inverted ref (it used to panic in get_dimension) serves no cell *)
+Example inverted_ref_serves_nobody :
+  run_cells ascii_alnum [] [((1, 1), FMaster 0 [66;51;58;66;50] [65;49]); ((2, 1), FMember 0 [75])]
+  = Ok [((1, 1), [65;49]); ((2, 1), [75])].
+Proof. vm_compute. reflexivity. Qed.
+
+Theorem no_panic_replace_cell_names : forall is_alnum s off, off_small off ->
+  replace_cell_names is_alnum s off <> Panic /\ replace_cell_names is_alnum s off <> OutOfFuel.
+Proof.
+  intros is_alnum s off H. destruct (rcn_total is_alnum s off H) as (r & E). rewrite E.
+  split; discriminate.
+Qed.
+Example no_panic_next_formula_nonvacuous :
+  Forall (fun c : fcell => u32_pos (fst c))
+    [((1, 1), FMaster 0 [66;51;58;66;50] [65;49]); ((2, 1), FMember 0 [75])] /\
+  run_cells ascii_alnum [] [((1, 1), FMaster 0 [66;51;58;66;50] [65;49]); ((2, 1), FMember 0 [75])]
+  = Ok [((1, 1), [65;49]); ((2, 1), [75])].
+Proof.
+  split; [|exact inverted_ref_serves_nobody].
+  repeat constructor; vm_compute; discriminate.
+Qed.
 
 (* ------------------------------------------------------------------ examples, witnesses *)
 Lemma ascii_oracle : forall c, c < 128 -> ascii_alnum c = ascii_alnum c.
